@@ -778,7 +778,25 @@ class Interp:
             return z3.Not(z3.Exists([x], self.dict_has(a)[1][a.ref][x]))
         if isinstance(a, ConstDict):
             return self.dict_eq(b, a)
+        if isinstance(a, RecV) and isinstance(b, ConstDict) and all(isinstance(k, str) for k, _ in b.items):
+            # payload record == dict literal: the record holds exactly the keys of the literal, with equal values.
+            # The declared keys are REC_KEYS; `R.has.<undeclared>` is a ghost flag "the record has some key outside
+            # REC_KEYS" (unconstrained for a record received from outside, False for a dict literal)
+            want = dict(b.items)
+            cs = []
+            for k in sorted(getattr(self.ts.shapes, 'REC_KEYS', {})):
+                if k in want:
+                    cs.append(self.rec_contains(a, k))
+                    cs.append(self.eq(self.rec_load(a, k), want[k]))
+                else:
+                    cs.append(self.neg(self.rec_contains(a, k)))
+            for k in want:
+                self.ts.rec_key_type(k)     # a key of the literal that is not declared: engine error naming it
+            cs.append(self.neg(self.rec_contains(a, self.REC_UNDECLARED)))
+            return self.conj(cs)
         raise Unsupported('dict == dict (non-empty)')
+
+    REC_UNDECLARED = '<undeclared>'
 
     # ---- records (payload dicts with literal keys)
     def rec_field(self, key, heap=None):
@@ -812,7 +830,7 @@ class Interp:
                 raise Unsupported('record with non-literal key')
             self.rec_store(rv, k, v)
             given.add(k)
-        for k in rk:    # a dict literal has exactly its keys
+        for k in list(rk) + [self.REC_UNDECLARED]:    # a dict literal has exactly its keys
             if k not in given:
                 h, hn = self.rec_has(k)
                 self.heap.set(hn, z3.Store(h, r, False))
